@@ -70,7 +70,16 @@ func c11Scenario(name string, clients []gridClient, srvBudget int) *explore.Scen
 			}
 			prep := g.prepare()
 			// resumed: a first connection through the same Config and session cache, then the compared one
-			resumed := x.Choose("cli.resumed", 2) == 1
+			resumedMode := x.Choose("cli.resumed", 3) // 1 a second connection; 2 a second connection for which the server's TLS 1.3 suite choice has changed (same hash: the PSK stays usable)
+			resumed := resumedMode != 0
+			suiteChanged := false
+			if resumedMode == 2 {
+				if sc.Vers != tls.VersionTLS13 || !has16(h0.Suites, tls.TLS_CHACHA20_POLY1305_SHA256) || !has16(h0.Suites, tls.TLS_AES_128_GCM_SHA256) {
+					r.Obs = "n/a"
+					return
+				}
+				suiteChanged = true
+			}
 			if resumed {
 				ccfg.ClientSessionCache = tls.NewLRUClientSessionCache(4)
 				ccfg.PreferSkipResumptionOnNilExtension = true
@@ -96,7 +105,17 @@ func c11Scenario(name string, clients []gridClient, srvBudget int) *explore.Scen
 					return
 				}
 			}
-			hs := peer.Run(ccfg, g.ID, scfg, peer.Opts{KeepOpen: true, Echo: true, Prepare: func(u *tls.UConn) error {
+			var unhook func()
+			defer func() {
+				if unhook != nil {
+					unhook()
+				}
+			}()
+			hs := peer.Run(ccfg, g.ID, scfg, peer.Opts{KeepOpen: true, Echo: true, OnConns: func(_ *tls.UConn, s *tls.Conn) {
+				if suiteChanged {
+					unhook = installHooks(s, &connHooks{Suite13: tls.TLS_CHACHA20_POLY1305_SHA256})
+				}
+			}, Prepare: func(u *tls.UConn) error {
 				if prep != nil {
 					if err := prep(u); err != nil {
 						return err
@@ -118,6 +137,9 @@ func c11Scenario(name string, clients []gridClient, srvBudget int) *explore.Scen
 			if resumed {
 				what += " second connection through one session cache"
 			}
+			if suiteChanged {
+				what += ", the server now selecting TLS_CHACHA20_POLY1305_SHA256"
+			}
 			if !(hs.OK() && hs.EchoOK) {
 				r.Obs = "handshake-failed:" + whoFailed(hs) // C10's business
 				r.Count("handshake_failed", 1)
@@ -134,7 +156,7 @@ func c11Scenario(name string, clients []gridClient, srvBudget int) *explore.Scen
 			}
 			cs, ss := hs.U.ConnectionState(), hs.S.ConnectionState()
 			r.Nontrivial = true
-			r.Class = fmt.Sprintf("%s|%d|%s|%v|%v", g.Name, sniMode, sc.desc, clientAuth, resumed)
+			r.Class = fmt.Sprintf("%s|%d|%s|%v|%v|%v", g.Name, sniMode, sc.desc, clientAuth, resumed, suiteChanged)
 			if cs.DidResume {
 				r.Count("resumed_compared", 1)
 			}
@@ -202,7 +224,7 @@ func c11Scenarios(thorough bool) []*explore.Scenario {
 func init() {
 	register(&Prop{ID: "C11", Level: "exploration", Variant: "A", Scenarios: c11Scenarios,
 		Run: func(c *explore.Check, thorough bool) {
-			c.Rule = "successful handshakes of the C10 grid (client, plus custom specs with an ECH inner-marker-only / GREASE-only extension, x offered server choices, <=1 (2) server-axis deviations) x SNI mode {name, RemoveSNIExtension, IP literal, empty, another name through SetSNI after an explicit BuildHandshakeState} x server {no client auth, RequestClientCert} x {first connection, second connection through the same Config and session cache (resumed where the parrot can)}: both ConnectionStates compared field by field (version, suite, ALPN, curve, DidResume, ECHAccepted, ServerName == SNI parsed from the wire) and ExportKeyingMaterial compared for 27 (label, context, length) triples. distinct = (client, sni mode, server choice, client auth). ECH handshakes are compared by the same oracle inside C15."
+			c.Rule = "successful handshakes of the C10 grid (client, plus custom specs with an ECH inner-marker-only / GREASE-only extension, x offered server choices, <=1 (2) server-axis deviations) x SNI mode {name, RemoveSNIExtension, IP literal, empty, another name through SetSNI after an explicit BuildHandshakeState} x server {no client auth, RequestClientCert} x {first connection, second connection through the same Config and session cache (resumed where the parrot can), the same with the server's TLS 1.3 suite choice changed to another suite of the same hash in between}: both ConnectionStates compared field by field (version, suite, ALPN, curve, DidResume, ECHAccepted, ServerName == SNI parsed from the wire) and ExportKeyingMaterial compared for 27 (label, context, length) triples. distinct = (client, sni mode, server choice, client auth). ECH handshakes are compared by the same oracle inside C15."
 			c.Assumptions = []string{"EKM bytes are compared when both sides return bytes; a one-sided refusal is accepted only for the two documented reasons (renegotiation enabled, TLS<=1.2 without EMS)"}
 			runAll(c, c11Scenarios(thorough), 0)
 			c.Gate(c.Total.Counters["ekm_both_succeed"] >= 1000, "non-vacuity: %d both-succeed EKM comparisons", c.Total.Counters["ekm_both_succeed"])
